@@ -20,7 +20,7 @@ from . import common as cm
 
 NAME = "alias"
 PROPERTY = "C20"
-TIERS = {"quick": (12000, 90.0), "thorough": (400000, 1800.0)}
+TIERS = {"quick": (10000, 90.0), "thorough": (400000, 1800.0)}
 CHANGE_KINDS = {"call"}
 OBSERVE_KINDS = {"call"}
 RULE = ("one run = session of 3-12 public calls on long-lived Field / SRF / Krige / CondSRF "
